@@ -964,6 +964,9 @@ func ufWriterOf(w io.Writer) *bufio.Writer { return nil }
 
 //@ func Upgrader.Upgrade
 //@   props C09 C16
+//@   callsite httpWriteResponseUpgrade requires [allseen] headerSeen == 31 && err == nil && len(nonce) == 24
+//@   callsite httpWriteResponseError requires [rejhdr] dynTypeIs(err, "*ws.ConnectionRejectedError") ==> header[1] == err.(*ConnectionRejectedError).header
+//@   callsite httpWriteResponseError requires [usrhdr] header[0] == u.Header
 //@   requires [conn] conn != nil
 //@   ensures  [lineerr] err == nil ==> forall(old(linePos(ufReaderOf(io.Reader(conn)))), linePos(ufReaderOf(io.Reader(conn))), func(i int) bool { return ufLineErr(ufReaderOf(io.Reader(conn)), i) == nil })
 //@   ensures  [ok101]   err == nil ==> outCalls(wrOf(ufWriterOf(io.Writer(conn)))) == old(outCalls(wrOf(ufWriterOf(io.Writer(conn)))))+1 && outByte(wrOf(ufWriterOf(io.Writer(conn))), old(outLen(wrOf(ufWriterOf(io.Writer(conn)))))) == 1
@@ -1020,6 +1023,8 @@ func ufHijacked(w http.ResponseWriter) *bufio.ReadWriter { return nil }
 
 //@ func HTTPUpgrader.Upgrade
 //@   props C09
+//@   callsite httpWriteResponseError requires [rejhdr] dynTypeIs(err, "*ws.ConnectionRejectedError") ==> header[1] == err.(*ConnectionRejectedError).header
+//@   callsite httpWriteResponseError requires [usrhdr] header[0] == HandshakeHeader(HandshakeHeaderHTTP(u.Header)) || u.Header == nil
 //@   requires [r] r != nil && w != nil
 //@   ensures  [method] err == nil ==> eqvStr(r.Method, "GET") || len(r.Method) == 3
 //@   ensures  [proto]  err == nil ==> r.ProtoMajor == 1 && r.ProtoMinor >= 1
